@@ -3,7 +3,5 @@ CONSTANT V = 2
 INIT Init
 NEXT Next
 INVARIANT AtMostMaxEpochs
-INVARIANT NeverStopsEarly
-INVARIANT NeverRunsOn
-INVARIANT StopsWhenForced
+INVARIANT StopsExactlyWhenDocumented
 INVARIANT BestAttainsMin
